@@ -6,6 +6,7 @@ CONSTANTS
   DeleteByName = FALSE
   ClaimIgnoresCancel = FALSE
   PrefixCancellers = {}
+  BlockingSend = FALSE
   DropOnClaim = FALSE
   MaxRuns = 1
   ScenLen = 16
